@@ -1,4 +1,4 @@
-import Ldlm.Proofs.CoreSU
+import Ldlm.Proofs.CoreRestart
 import Ldlm.Proofs.CoreLease
 import Ldlm.Props.C01
 import Ldlm.Props.C04
@@ -26,7 +26,9 @@ any configuration, any file content (`restoreAll` is a fold over an arbitrary ta
   the original key on a restored hold they succeed (`restored_unlock_succeeds`, `restored_renew_succeeds`).
 * `restored_only_from_file` — a hold in the table after a restart is listed in the file it loaded;
   `ended_stays_ended` — hence a hold that had ended before the restart (not in the table, invariant
-  `Inv'` ties table, bookkeeping and file together) is not held after it.
+  `InvS` ties table, bookkeeping and file together) is not held after it; `…_reachable`: for the
+  state after ANY history, with no hypothesis but lawfulness and key freshness (restart itself
+  preserves the invariant: `Proofs/CoreRestart.restart_inv'`).
 * `startup_total` — `restart` is a total function on every file content: together with C17
   (`file_decodes`: every file the server writes decodes) startup cannot fail on its own file.  The
   nil dereference on a failed restore was in the logging argument (`err.Error()` on a nil error),
@@ -54,8 +56,7 @@ theorem only_default_leases (s : St M) :
 /-- a restored hold that nobody touches is still in the table at every instant before
 restart time + default lock timeout … -/
 theorem restored_not_early (ho : o.Lawful) (hinj : KeysInjective c)
-    (hr : ∀ s : St M, Inv' o c s → Inv' o c (restart o c s).1)
-    (s : St M) (h : Inv' o c s) (n k : Str) (hh : held o (restart o c s).1 n k)
+    (s : St M) (h : InvS o c s) (n k : Str) (hh : held o (restart o c s).1 n k)
     (dt : Nat) (hd : dt < c.dlt) :
     ∃ tm, tm.deadline = s.now + c.dlt ∧
       held o (step o c (restart o c s).1 (.advance dt)).1 tm.name tm.key ∧
@@ -63,8 +64,8 @@ theorem restored_not_early (ho : o.Lawful) (hinj : KeysInjective c)
   obtain ⟨tm, hg, hdl⟩ := restored_has_default_lease o c ho s n k hh
   have hnow := restart_now o c s
   have hd' : (restart o c s).1.now + dt < tm.deadline := by rw [hnow, hdl]; omega
-  exact ⟨tm, hdl, C04.lease_not_early_held ho hinj hr (hr s h) dt _ tm hg hd',
-    C04.lease_not_early ho hinj (hr s h) dt _ tm hg hd'⟩
+  exact ⟨tm, hdl, C04.lease_not_early_held ho hinj (restart_invS ho h) dt _ tm hg hd',
+    C04.lease_not_early ho hinj (restart_invS ho h).1 dt _ tm hg hd'⟩
 
 /-- … and no lease of a restored hold survives the instant restart time + default lock timeout -/
 theorem restored_expires_exactly (s : St M) (dt : Nat) (hd : c.dlt ≤ dt)
@@ -104,19 +105,33 @@ theorem restored_only_from_file (ho : o.Lawful) (s : St M) (n k : Str)
   · simp [hf] at he
 
 /-- a hold that is not in the table before a restart is not in the table after it -/
-theorem ended_stays_ended (ho : o.Lawful) (s : St M) (h : Inv' o c s) (hu : SU s) (n k : Str)
+theorem ended_stays_ended (ho : o.Lawful) (s : St M) (h : InvS o c s) (n k : Str)
     (hnh : ¬ held o s n k) : ¬ held o (restart o c s).1 n k := by
   intro hh
   obtain ⟨hf, e, he, x, hx, h1, h2⟩ := restored_only_from_file o c ho s n k hh
   apply hnh
-  have hget : AMap.get s.file e.1 = some e.2 := AMap.uniq_get_of_mem _ _ _ hu.2 he
+  have hget : AMap.get s.file e.1 = some e.2 := AMap.uniq_get_of_mem _ _ _ h.2.2 he
   have hb : booked s e.1 x := by
-    rcases h.fs e.1 with hfs | hfs
+    rcases h.1.fs e.1 with hfs | hfs
     · exact ⟨e.2, by rw [← hfs]; exact hget, hx⟩
     · rw [hfs.1] at hget; cases hget
-  rcases h.bh e.1 x hb with ⟨r, hg, hk, _⟩ | hx
+  rcases h.1.bh e.1 x hb with ⟨r, hg, hk, _⟩ | hx
   · exact ⟨r, by rw [← h1]; exact hg, by rw [← h2]; exact hk⟩
   · cases hx
+
+/-- **unconditional form**: after ANY history (further restarts included) a hold that is not in the
+table stays out of it across the next restart -/
+theorem ended_stays_ended_reachable (ho : o.Lawful) (hinj : KeysInjective c) (ops : List Op) (n k : Str)
+    (hnh : ¬ held o (run o c ops) n k) : ¬ held o (restart o c (run o c ops)).1 n k :=
+  ended_stays_ended o c ho _ (run_invS ho hinj ops) n k hnh
+
+/-- … and every restored hold is still there at every instant before restart time + default lock timeout -/
+theorem restored_not_early_reachable (ho : o.Lawful) (hinj : KeysInjective c) (ops : List Op) (n k : Str)
+    (hh : held o (restart o c (run o c ops)).1 n k) (dt : Nat) (hd : dt < c.dlt) :
+    ∃ tm, tm.deadline = (run o c ops).now + c.dlt ∧
+      held o (step o c (restart o c (run o c ops)).1 (.advance dt)).1 tm.name tm.key ∧
+      AMap.get (step o c (restart o c (run o c ops)).1 (.advance dt)).1.timers (tkey n k) = some tm :=
+  restored_not_early o c ho hinj _ (run_invS ho hinj ops) n k hh dt hd
 
 /-- `restart` is total: it is a Lean function on every state and every file content -/
 theorem startup_total (s : St M) : ∃ s' ev, restart o c s = (s', ev) := ⟨_, _, rfl⟩
